@@ -1,5 +1,6 @@
 import XalanModel.C01.Spec
 import XalanModel.C01.Core
+import XalanModel.C01.CoreCompile
 /-!
 Glue for `xm_c01 core`: turns a parsed stylesheet of the Core fragment (literal text, value-of, literal result
 elements, xsl:attribute with a literal name, copy-of / comment / processing-instruction, if, choose, for-each, apply-templates, call-template; no variables, sort keys or
@@ -96,13 +97,14 @@ def oracle (ss : Stylesheet) (d : Doc) : Core.Oracle :=
   let modeOfApply (a : Core.Addr) : Option String :=
     if a.1 < nT then (match look a with | some (.applyTemplates _ m _ _) => m | _ => none)
     else ((modes ss)[a.1 - nT]?).getD none
+  let xOf (n : Core.SrcNode) : XCtx := { node := n.1, cur := n.1, pos := n.2.1, size := n.2.2 }
   let ctxOf (n : Core.SrcNode) : Ctx := { node := n.1, cur := n.1, pos := n.2.1, size := n.2.2 }
   let number (l : List Nat) : List Core.SrcNode := (l.zipIdx 1).map fun p => (p.1, p.2, l.length)
   { sel := fun a n =>
       if a.1 < nT then
         match look a with
-        | some (.forEach e _ _) => (match eval d fuel e (ctxOf n) with | some (.ns l) => number l | _ => [])
-        | some (.applyTemplates (some e) _ _ _) => (match eval d fuel e (ctxOf n) with | some (.ns l) => number l | _ => [])
+        | some (.forEach e _ _) => (match eval d evalFuel e (xOf n) with | some (.ns l) => number l | _ => [])
+        | some (.applyTemplates (some e) _ _ _) => (match eval d evalFuel e (xOf n) with | some (.ns l) => number l | _ => [])
         | some (.applyTemplates none _ _ _) => number (d.children n.1)
         | _ => []
       else number (d.children n.1)
@@ -111,7 +113,7 @@ def oracle (ss : Stylesheet) (d : Doc) : Core.Oracle :=
       let m := modeOfApply a
       match (ss.templates.zipIdx.foldl (fun (acc : Option (Int × Nat)) (p : Template × Nat) =>
           if p.1.mode ≠ m then acc else
-          (p.1.pats.filter fun pat => matchesPat d fuel pat n).foldl (fun acc pat =>
+          (p.1.pats.filter fun pat => matchesPat d evalFuel pat n).foldl (fun acc pat =>
             let pr := p.1.prio.getD (defaultPrio pat)
             match acc with
             | none => some (pr, p.2)
@@ -124,22 +126,22 @@ def oracle (ss : Stylesheet) (d : Doc) : Core.Oracle :=
         | _ => builtinNone ss
     branch := fun a n =>
       match look a with
-      | some (.if_ t _) => (match eval d fuel t (ctxOf n) with | some v => if toBool v then 0 else 1 | none => 1)
+      | some (.if_ t _) => (match eval d evalFuel t (xOf n) with | some v => if toBool v then 0 else 1 | none => 1)
       | some (.choose whens _) =>
         ((whens.findIdx? fun w => match w with
-          | .when t _ => (match eval d fuel t (ctxOf n) with | some v => toBool v | none => false)
+          | .when t _ => (match eval d evalFuel t (xOf n) with | some v => toBool v | none => false)
           | _ => false).getD whens.length)
       | _ => 0
     str := fun a n =>
       if a.1 < nT then
         match look a with
         | some (.text s) => s
-        | some (.valueOf e) => (match eval d fuel e (ctxOf n) with | some v => toStr d v | none => "")
+        | some (.valueOf e) => (match eval d evalFuel e (xOf n) with | some v => toStr d v | none => "")
         | some (.attribute _ _ body) =>
           (match execSeq Quirks.spec ss d [] fuel body (ctxOf n) with | some evs => rtfString evs | none => "")
         | _ =>
           match lookItem a with
-          | some (.lreAttr parts) => (evalAvt d fuel parts (ctxOf n)).getD ""
+          | some (.lreAttr parts) => (evalAvt d evalFuel parts (xOf n)).getD ""
           | _ => ""
       else (d.node n.1).value
     evs := fun a n =>
@@ -149,5 +151,19 @@ def oracle (ss : Stylesheet) (d : Doc) : Core.Oracle :=
 
 /-- template for the root node in the default mode -/
 def rootTemplate (ss : Stylesheet) (d : Doc) : Nat := (oracle ss d).tmpl (builtinElem ss none, [0]) (0, 1, 1)
+
+/-! ### `core_refines_spec_total` at run time: the proved compiler `CoreSpec.compile` and the instantiated oracle -/
+
+open XalanModel.C01.CoreSpec in
+/-- is the stylesheet inside the fragment `core_refines_spec_total` is proved for?  (the model's own decidable test) -/
+def narrow (ss : Stylesheet) : Bool := inFragment ss
+
+open XalanModel.C01.CoreSpec in
+/-- `Core.run` exactly as in the conclusion of `core_refines_spec_total`: the compiled program `compile ss`
+(= `eraseL (compileA ss)`), the oracle `oracleOf` with the annotation `infoOf ss` (= `infoAt (compileA ss)`) -/
+def runInstantiated (ss : Stylesheet) (d : Doc) (fuel : Nat) : Option (List REv) :=
+  let L := layoutOf ss
+  let AP := compileA ss
+  Core.run (eraseL AP) (oracleOf ss d L (infoAt AP)) fuel (tmplFor ss d L none 0) (0, 1, 1)
 
 end Driver.C01Core
